@@ -487,6 +487,8 @@ pub struct PtConn {
     silent: bool,
     /// A Registration was just answered on this connection: the next 0F A1 is the identity check of the handshake.
     expect_identity: bool,
+    /// The exchange in progress belongs to a handshake (Registration / identity request).
+    cur_handshake: bool,
     close_when_idle: bool,
     /// Closed cleanly between two exchanges: later frames go nowhere (no anomaly: the client cannot know).
     closed_idle: bool,
@@ -501,6 +503,7 @@ impl PtConn {
             point: 0,
             silent: false,
             expect_identity: false,
+            cur_handshake: false,
             close_when_idle: false,
             closed_idle: false,
         }
@@ -524,7 +527,8 @@ impl PtConn {
             }
         }
         let mut delay = e.delay_ms;
-        if !at_ack {
+        // (the handshake is not paced: how long a client gives the handshake as a whole is its own choice)
+        if !at_ack && !self.cur_handshake {
             delay += pt.spec.pace_ms as u64;
         }
         let dp = pt.delay_pct;
@@ -1302,6 +1306,7 @@ impl Terminal for PtConn {
                 // handshake frames: a Registration, and the identity request that follows it
                 let hs = cf == (0x06, 0x00) || (cf == (0x0f, 0xa1) && self.expect_identity);
                 self.expect_identity = cf == (0x06, 0x00);
+                self.cur_handshake = hs;
                 pt.requests[n].handshake = hs;
                 n
             };
